@@ -17,7 +17,14 @@ ASSUMPTIONS = ["the user's function is observed through its argument and a call 
 
 
 def crate_configs(tier):
-    return [{"name": "c18", "features": ("derive", "phf")}]
+    return [{"name": "c18", "features": ("derive", "phf")}, {"name": "c18probe", "kind": "genprobe"}]
+
+
+def query_in_config(cfg, kind, args):
+    return (kind == "struct") == (cfg.get("kind") == "genprobe")
+
+
+probe_command = S.struct_probe_command
 
 
 def build_corpus(tier, rng):
@@ -31,6 +38,13 @@ def build_corpus(tier, rng):
         cands.append(("custom" if i % 2 == 0 else "standard",
                       G.string_enum(rng, allow_default=False, custom_err=(i % 2 == 0), phf=phf, allow_fields=not phf,
                                     generics=not phf, allow_aci=(i % 6 != 0))))
+    # a DISABLED default variant takes no part in parsing: the custom error still applies
+    from vlib.defs import DEFAULT
+    for j, fn in enumerate(("perr_a", "perr::b")):
+        for pos in (0, 1, 2):
+            vs = [Variant("Red", "unit"), Variant("Blue", "unit", [], [aci(True, explicit=False), ser("b%d" % j)])]
+            vs.insert(pos, Variant("Gone", "tuple", [Field("String")], [DISABLED, DEFAULT] if j else [DEFAULT, DISABLED]))
+            cands.append(("disabled-default", Item("E", vs, metas=[EM("pety", "PErr"), EM("pefn", fn)])))
     for it in c01.systematic(rng):
         it.variants = [v for v in it.variants if not v.has("default")]
         it.metas = [m for m in it.metas if m.kind not in ("pety", "pefn")] + [EM("pefn", "perr::b"), EM("pety", "PErr")]
@@ -47,14 +61,18 @@ def build_corpus(tier, rng):
             tw.groups = None
             cands.append(("systematic-phf", tw))
     infos = G.classify(ID, [it for _, it in cands])
+    reals = G.real_structure(ID, [it for _, it in cands])
     rejected = 0
-    for (fam, it), info in zip(cands, infos):
+    for (fam, it), info, real in zip(cands, infos, reals):
         if not c01.admit(it, info):
             rejected += 1
             continue
         k = c.add_def(it, family=fam, derives=["EnumString"], info=info)
+        seen = set()
         for s, note in G.fromstr_inputs(it, info, rng, flipcap=(64 if thorough else 8), nrandom=(30 if thorough else 8)):
             c.add_q(k, "fromstr", [S.hx(s)], note=note)
+            seen.add(s)
+        S.add_real_literal_inputs(c, k, it, real, seen)
     c.rejected = rejected
     return c
 
